@@ -2,7 +2,7 @@
    content.  Statements only.  (reinterpret keeps the vector by construction;
    its vocabulary / algebra rules and create_subset are compared by the tie.) *)
 From mathcomp Require Import all_ssreflect all_algebra.
-From NSpa Require Import Model.Vec Model.Algebra Model.Translate Theory.SeqSum Theory.TranslateLaws.
+From NSpa Require Import Model.Vec Model.Algebra Model.Translate Theory.SeqSum Theory.TranslateLaws Theory.TranslateKeys.
 Import GRing.Theory.
 Local Open Scope ring_scope.
 
@@ -69,6 +69,36 @@ Theorem C13_populate_creates_exactly_the_missing_requested_keys :
 Proof. exact: populate_creates_exactly_the_missing_requested_keys. Qed.
 Print Assumptions C13_populate_creates_exactly_the_missing_requested_keys.
 
+(* ---- how the requested key list is read (Theory/TranslateKeys.v) -------------------------------- *)
+Theorem C13_a_key_requested_twice_counts_once :
+  forall (R : comRingType) d_from d_to (src tgt_after : entries R) tgt_before l populate strict,
+    transform_to d_from d_to src tgt_after tgt_before (Some (l ++ l)) populate strict
+    = transform_to d_from d_to src tgt_after tgt_before (Some l) populate strict.
+Proof. exact: requested_twice_counts_once. Qed.
+Print Assumptions C13_a_key_requested_twice_counts_once.
+
+Theorem C13_duplicates_in_the_requested_keys_are_immaterial :
+  forall (R : comRingType) d_from d_to (src tgt_after : entries R) tgt_before l populate strict,
+    transform_to d_from d_to src tgt_after tgt_before (Some (undup l)) populate strict
+    = transform_to d_from d_to src tgt_after tgt_before (Some l) populate strict.
+Proof. exact: requested_duplicates_removed. Qed.
+Print Assumptions C13_duplicates_in_the_requested_keys_are_immaterial.
+
+Theorem C13_requesting_every_source_key_is_requesting_none :
+  forall (R : comRingType) d_from d_to (src tgt_after : entries R) tgt_before populate strict,
+    transform_to d_from d_to src tgt_after tgt_before (Some (map fst src)) populate strict
+    = transform_to d_from d_to src tgt_after tgt_before None populate strict.
+Proof. exact: all_source_keys_is_no_selection. Qed.
+Print Assumptions C13_requesting_every_source_key_is_requesting_none.
+
+Theorem C13_requested_keys_absent_from_the_source_are_ignored :
+  forall (R : comRingType) d_from d_to (src tgt_after : entries R) tgt_before l extra populate strict,
+    all (fun k => ~~ has_key src k) extra ->
+    transform_to d_from d_to src tgt_after tgt_before (Some (l ++ extra)) populate strict
+    = transform_to d_from d_to src tgt_after tgt_before (Some l) populate strict.
+Proof. exact: keys_absent_from_the_source_are_ignored. Qed.
+Print Assumptions C13_requested_keys_absent_from_the_source_are_ignored.
+
 From mathcomp Require Import ssrZ.
 From Coq Require Import ZArith.
 (* non-vacuity: an orthonormal two-key source (e0, e1) translated into a three-dimensional target; the transform maps
@@ -78,4 +108,12 @@ Example C13_hypotheses_met :
   [/\ all (fun p => size p.2 == 2%nat) pairs,
       matvec (outer_sum 3 2 pairs) [:: 1; 0]%Z = [:: 1; 2; 3]%Z
     & matvec (outer_sum 3 2 pairs) [:: 0; 1]%Z = [:: 0; -1; 1]%Z].
+Proof. by vm_compute. Qed.
+
+(* non-vacuity of the key-list theorems: a request naming A twice and a key the source does not hold *)
+Example C13_key_list_example :
+  let src : entries [comRingType of Z] := [:: (0%nat, [:: 1; 0]%Z); (1%nat, [:: 0; 1]%Z)] in
+  let tgt : entries [comRingType of Z] := [:: (0%nat, [:: 1; 2; 3]%Z); (1%nat, [:: 0; -1; 1]%Z)] in
+  transform_to 2 3 src tgt [:: 0; 1]%nat (Some [:: 0; 0; 7]%nat) (Some false) false
+  = TOk [:: [:: 1; 0]; [:: 2; 0]; [:: 3; 0]]%Z false [:: 0%nat].
 Proof. by vm_compute. Qed.
